@@ -233,6 +233,10 @@ def main(tier):
         deps = ct.get("dependencies", {})
         okd = set(deps) == {"num-complex", "rust_decimal"} and all(isinstance(v, dict) and v.get("optional") for v in deps.values())
         run.ob(okd, "cargo-deps", "C17 dependency feature sets do not depend on the selected subset", "Cargo.toml [dependencies]", str(deps))
+        rd = deps.get("rust_decimal", {})
+        nc = deps.get("num-complex", {})
+        okdf = isinstance(rd, dict) and sorted(rd.get("features", [])) == ["maths"] and rd.get("default-features") is False and isinstance(nc, dict) and not nc.get("features")
+        run.ob(okdf, "cargo-dep-features", "C17 the dependencies are built with the documented feature set (rust_decimal: maths only; a different set, e.g. maths-nopanic, changes every evaluator's behaviour)", "Cargo.toml [dependencies]", str(deps))
     except Exception as e:
         run.fail_closed("cannot read Cargo.toml", repr(e))
     if tier == "thorough":
